@@ -207,7 +207,8 @@ def r2(R, repo):
               continue
           n_st += 1
           allowed = {'_dict': ('FrozenDict.__init__',), '_hash': ('FrozenDict.__init__', 'FrozenDict.__hash__')}[n.attr]
-          R.check(m is mod and f.qual in allowed, key_of(f, 'store to .%s' % n.attr), (f, n), evidence=True, msg_fail=
+          private_helper = m is mod and f.qual.startswith('FrozenDict._') and not f.qual.startswith('FrozenDict.__')
+          R.check(m is mod and f.qual in allowed, key_of(f, 'store to .%s' % n.attr), (f, n), evidence=not private_helper, msg_fail=
                   '`%s` is written outside %s' % (astu.src(n), allowed))
         # subscript stores / deletes / mutator calls on ._dict
         if isinstance(n, ast.Subscript) and isinstance(n.ctx, (ast.Store, ast.Del)) and isinstance(n.value, ast.Attribute) and n.value.attr == '_dict' and m is mod:
